@@ -485,6 +485,9 @@ func runOverlayTest(repo, pkg, testFile, run string, timeoutSec int) (string, st
 	if run != "" {
 		args = append(args, "-run", run)
 	}
+	if os.Getenv("VERIF_RACE") == "1" {
+		args = append(args, "-race")
+	}
 	args = append(args, "-v", "./"+pkg+"/")
 	cmd := exec.Command("go", args...)
 	cmd.Dir = repo
